@@ -120,7 +120,7 @@ def run_buf(variant, text):
     return p.stdout.decode()
 
 
-def run_threads(variant, inputs, n=16, timeout=1200):
+def run_threads(variant, inputs, n=16, timeout=300):
     path = build(variant)
     p = run([path, "threads", str(n)], inp=("\n".join(hexline(s) for s in inputs) + "\n").encode(), timeout=timeout)
     return p.stdout.decode()
